@@ -4,16 +4,25 @@ package dnsforward
 
 import (
 	"bufio"
+	"crypto/ecdsa"
+	"crypto/elliptic"
+	crand "crypto/rand"
 	"crypto/tls"
+	"crypto/x509"
+	"crypto/x509/pkix"
 	"errors"
 	"fmt"
+	"math/big"
 	"net"
 	"net/http"
+	"net/netip"
 	"net/url"
 	"path"
 	"regexp"
+	"slices"
 	"strings"
 	"testing"
+	"time"
 
 	"github.com/AdguardTeam/dnsproxy/proxy"
 	"github.com/AdguardTeam/golibs/logutil/slogutil"
@@ -815,6 +824,598 @@ func c16EmitAux(out *vfOut, r *vfRand) {
 	}
 }
 
+// ---- C16, strict server-name check of the TLS handshake: the names of the
+// certificate (Server.prepareTLS), anyNameMatches, matchesDomainWildcard and
+// Server.onGetCertificate through tls.Config.GetCertificate.
+
+// c16CertKey is the cache of self-signed certificates, one per (SANs, CN).
+type c16CertEntry struct {
+	cert *tls.Certificate
+	// dns and cn are what x509.ParseCertificate reads back: the input of
+	// prepareTLS.
+	dns []string
+	cn  string
+	err error
+}
+
+var c16CertCache = map[string]*c16CertEntry{}
+
+func c16MakeCert(sans []string, cn string) *c16CertEntry {
+	k := strings.Join(sans, "\x00") + "\x01" + cn
+	if e, ok := c16CertCache[k]; ok {
+		return e
+	}
+	e := &c16CertEntry{}
+	c16CertCache[k] = e
+	key, err := ecdsa.GenerateKey(elliptic.P256(), crand.Reader)
+	if err != nil {
+		e.err = err
+		return e
+	}
+	tmpl := &x509.Certificate{
+		SerialNumber: big.NewInt(int64(len(c16CertCache))),
+		Subject:      pkix.Name{CommonName: cn},
+		NotBefore:    time.Now().Add(-time.Hour),
+		NotAfter:     time.Now().Add(24 * time.Hour),
+		DNSNames:     sans,
+	}
+	der, err := x509.CreateCertificate(crand.Reader, tmpl, tmpl, &key.PublicKey, key)
+	if err != nil {
+		e.err = err
+		return e
+	}
+	parsed, err := x509.ParseCertificate(der)
+	if err != nil {
+		e.err = err
+		return e
+	}
+	e.cert = &tls.Certificate{Certificate: [][]byte{der}, PrivateKey: key}
+	e.dns = slices.Clone(parsed.DNSNames)
+	e.cn = parsed.Subject.CommonName
+	return e
+}
+
+// c16Hello runs the real path: Server.prepareTLS on a fresh server, then the
+// GetCertificate callback it installed, as crypto/tls calls it for a Client
+// Hello with this server name.
+func c16Hello(cert *tls.Certificate, strict bool, sni string) (accepted bool, panicked any) {
+	defer func() {
+		if r := recover(); r != nil {
+			panicked = r
+		}
+	}()
+	s := &Server{}
+	s.conf.TLSConf = &TLSConfig{
+		Cert:           cert,
+		TLSListenAddrs: []*net.TCPAddr{{IP: net.IP{127, 0, 0, 1}, Port: 853}},
+		StrictSNICheck: strict,
+	}
+	pconf := &proxy.Config{}
+	if err := s.prepareTLS(pconf); err != nil {
+		return false, "prepareTLS: " + err.Error()
+	}
+	if pconf.TLSConfig == nil || pconf.TLSConfig.GetCertificate == nil {
+		return false, "prepareTLS installed no GetCertificate"
+	}
+	c, err := pconf.TLSConfig.GetCertificate(&tls.ClientHelloInfo{ServerName: sni})
+	if err == nil && c != cert {
+		return false, "GetCertificate handed out another certificate"
+	}
+	return err == nil, nil
+}
+
+// c16LabelsEq compares two label lists, byte-wise or ignoring ASCII case.
+func c16LabelsEq(a, b []string, fold bool) bool {
+	if len(a) != len(b) {
+		return false
+	}
+	for i := range a {
+		if a[i] != b[i] && !(fold && strings.EqualFold(a[i], b[i])) {
+			return false
+		}
+	}
+	return true
+}
+
+// c16NameCovers is the label-wise reading of "name n of the certificate
+// covers host": the label lists are equal, or n is "*" followed by at least
+// one label and the label list of host ends with those labels after at least
+// one more label.  depth is the number of labels the "*" stands for (0 for an
+// exact match).
+func c16NameCovers(n, host string, fold bool) (ok bool, depth int) {
+	if c16LabelsEq(strings.Split(n, "."), strings.Split(host, "."), fold) {
+		return true, 0
+	}
+	return c16WildCovers(n, host, fold)
+}
+
+// c16WildCovers is the wildcard half of c16NameCovers.
+func c16WildCovers(n, host string, fold bool) (ok bool, depth int) {
+	nl, hl := strings.Split(n, "."), strings.Split(host, ".")
+	if len(nl) >= 2 && nl[0] == "*" && len(hl) > len(nl)-1 &&
+		c16LabelsEq(hl[len(hl)-(len(nl)-1):], nl[1:], fold) {
+		return true, len(hl) - (len(nl) - 1)
+	}
+	return false, 0
+}
+
+// c16Covered: some name of the certificate covers host (smallest depth).
+func c16Covered(names []string, host string, fold bool) (ok bool, depth int) {
+	depth = -1
+	for _, n := range names {
+		if o, d := c16NameCovers(n, host, fold); o && (depth < 0 || d < depth) {
+			ok, depth = true, d
+		}
+	}
+	return ok, depth
+}
+
+var c16HostnameRe = regexp.MustCompile(`^([A-Za-z0-9]([A-Za-z0-9-]{0,61}[A-Za-z0-9])?\.)*[A-Za-z0-9]([A-Za-z0-9-]{0,61}[A-Za-z0-9])?$`)
+
+// c16Wellformed: a host name (labels of letters, digits and inner hyphens,
+// the last one not all digits, at most 253 bytes) or an IP address literal.
+func c16Wellformed(s string) bool {
+	if _, err := netip.ParseAddr(s); err == nil {
+		return true
+	}
+	if s == "" || len(s) > 253 || !c16HostnameRe.MatchString(s) {
+		return false
+	}
+	tld := s[strings.LastIndexByte(s, '.')+1:]
+	return strings.Trim(tld, "0123456789") != ""
+}
+
+// c16CertNames: the names of the certificate the strict check is about: the
+// SAN DNS names, or the subject's CommonName when there are none.
+func c16CertNames(dns []string, cn string) []string {
+	if len(dns) != 0 {
+		return dns
+	}
+	return []string{cn}
+}
+
+// c16HelloMonitor is the strict clause of the property on the handshake,
+// independent of the model.
+func c16HelloMonitor(strict bool, names []string, sni string, accepted bool, panicked any, sortedContract bool) (ok bool, msg string) {
+	if panicked != nil {
+		return false, fmt.Sprintf("strict server-name check panicked or failed to set up: %v", panicked)
+	}
+	if !strict {
+		if !accepted {
+			return false, "strict check off, but the handshake was refused"
+		}
+		return true, ""
+	}
+	covFold, _ := c16Covered(names, sni, true)
+	cov, _ := c16Covered(names, sni, false)
+	wf := c16Wellformed(sni)
+	switch {
+	case accepted && !covFold:
+		return false, "strict: accepted a server name that no name of the certificate covers at a label boundary"
+	case accepted && !wf:
+		return false, "strict: accepted a server name that is neither a host name nor an IP address"
+	case !accepted && wf && cov && sortedContract:
+		return false, "strict: refused a server name that a name of the certificate covers"
+	}
+	return true, ""
+}
+
+func c16BytesList(xs []string) string {
+	items := make([]string, len(xs))
+	for i, x := range xs {
+		items[i] = vfBytes(x)
+	}
+	return vfList("bytes", items)
+}
+
+// c16CoverClasses names the relation between the server name and the
+// certificate's names as the label-wise reading sees it.
+func c16CoverClasses(names []string, sni string) (cl []string) {
+	if ok, d := c16Covered(names, sni, false); ok {
+		switch {
+		case d == 0:
+			cl = append(cl, "cert-exact")
+		case d == 1:
+			cl = append(cl, "cert-wild-one-label")
+		default:
+			cl = append(cl, "cert-wild-two-labels")
+		}
+	} else if ok, _ = c16Covered(names, sni, true); ok {
+		cl = append(cl, "cert-case")
+	}
+	for _, n := range names {
+		if strings.HasPrefix(n, "*") && !strings.HasPrefix(n, "*.") || n == "*." {
+			cl = append(cl, "pat-not-wildcard")
+			break
+		}
+	}
+	return cl
+}
+
+func c16EmitHello(out *vfOut, sans []string, cn string, strict bool, sni string, classes []string) {
+	e := c16MakeCert(sans, cn)
+	if e.err != nil {
+		out.Note("c16-cert-error", e.err.Error())
+		return
+	}
+	accepted, pan := c16Hello(e.cert, strict, sni)
+	names := c16CertNames(e.dns, e.cn)
+	ok, msg := c16HelloMonitor(strict, names, sni, accepted, pan, true)
+	classes = append(classes, "cert-hello")
+	classes = append(classes, c16CoverClasses(names, sni)...)
+	if len(e.dns) == 0 {
+		classes = append(classes, "cert-no-names")
+	}
+	if !slices.IsSorted(e.dns) {
+		classes = append(classes, "cert-unsorted")
+	}
+	switch {
+	case !strict:
+		classes = append(classes, "cert-strict-off")
+	case accepted:
+		classes = append(classes, "cert-accept")
+	default:
+		classes = append(classes, "cert-reject")
+	}
+	if sni == "" {
+		classes = append(classes, "cert-empty-sni")
+	}
+	if _, err := netip.ParseAddr(sni); err == nil {
+		classes = append(classes, "cert-ip-sni")
+	}
+	desc := map[string]any{"op": "prepareTLS+GetCertificate", "cert_dns_names": e.dns, "cert_common_name": e.cn,
+		"strict": strict, "server_name": sni, "accepted": accepted}
+	if _, d := c16Covered(names, sni, false); strict && accepted && d >= 2 {
+		desc["observation"] = fmt.Sprintf("a wildcard name of the certificate covers %d labels (RFC 6125: one)", d)
+	}
+	c := vfCase{
+		Coq: vfApp("CHello", vfBool(strict), c16BytesList(e.dns), vfBytes(e.cn), vfBytes(sni),
+			vfBool(netutil.IsValidIPString(sni)), vfBool(accepted)),
+		Nontrivial: strict,
+		Classes:    classes,
+		MonitorOK:  ok, MonitorMsg: msg,
+		Desc: desc,
+	}
+	if !ok {
+		c.FindingKey = "C16-" + vfHash(msg, "hello", strings.Join(e.dns, ","), e.cn, strict, sni)
+	}
+	out.Emit(c)
+}
+
+func c16EmitAny(out *vfOut, names []string, sni string, classes []string) {
+	var got bool
+	var pan any
+	func() {
+		defer func() { pan = recover() }()
+		got = anyNameMatches(slices.Clone(names), sni)
+	}()
+	sorted := slices.IsSorted(names)
+	ok, msg := c16HelloMonitor(true, names, sni, got, pan, sorted)
+	classes = append(classes, "any-direct")
+	classes = append(classes, c16CoverClasses(names, sni)...)
+	if !sorted {
+		classes = append(classes, "any-unsorted")
+	}
+	if len(names) == 0 {
+		classes = append(classes, "any-no-names")
+	}
+	hasWild := false
+	for _, n := range names {
+		hasWild = hasWild || strings.HasPrefix(n, "*.")
+	}
+	c := vfCase{
+		Coq:        vfApp("CAny", c16BytesList(names), vfBytes(sni), vfBool(netutil.IsValidIPString(sni)), vfBool(got)),
+		Nontrivial: got || hasWild,
+		Classes:    classes,
+		MonitorOK:  ok, MonitorMsg: msg,
+		Desc: map[string]any{"op": "anyNameMatches", "dns_names": names, "sni": sni, "result": got},
+	}
+	if !ok {
+		c.FindingKey = "C16-" + vfHash(msg, "any", strings.Join(names, ","), sni)
+	}
+	out.Emit(c)
+}
+
+func c16EmitWild(out *vfOut, host, pat string, classes []string) {
+	var got bool
+	var pan any
+	func() {
+		defer func() { pan = recover() }()
+		got = matchesDomainWildcard(host, pat)
+	}()
+	nl := strings.Split(pat, ".")
+	isPat := len(nl) >= 2 && nl[0] == "*"
+	covFold, _ := c16WildCovers(pat, host, true)
+	cov, d := c16WildCovers(pat, host, false)
+	ok, msg := true, ""
+	switch {
+	case pan != nil:
+		ok, msg = false, fmt.Sprintf("matchesDomainWildcard panicked: %v", pan)
+	case got && !isPat:
+		ok, msg = false, "matchesDomainWildcard: a pattern that is not *.<domain> matched"
+	case got && !covFold:
+		ok, msg = false, "matchesDomainWildcard: matched a host that is not under the pattern's domain at a label boundary"
+	case !got && cov:
+		ok, msg = false, "matchesDomainWildcard: a host under the pattern's domain did not match"
+	}
+	classes = append(classes, "wild-direct")
+	if !isPat {
+		classes = append(classes, "pat-not-wildcard")
+	}
+	if got && strings.HasPrefix(host, ".") {
+		classes = append(classes, "pat-empty-label")
+	}
+	if got && d >= 2 {
+		classes = append(classes, "cert-wild-two-labels")
+	} else if got {
+		classes = append(classes, "cert-wild-one-label")
+	}
+	c := vfCase{
+		Coq:        vfApp("CWild", vfBytes(host), vfBytes(pat), vfBool(got)),
+		Nontrivial: got || strings.HasPrefix(pat, "*"),
+		Classes:    classes,
+		MonitorOK:  ok, MonitorMsg: msg,
+		Desc: map[string]any{"op": "matchesDomainWildcard", "host": host, "pat": pat, "result": got},
+	}
+	if !ok {
+		c.FindingKey = "C16-" + vfHash(msg, "wild", host, pat)
+	}
+	out.Emit(c)
+}
+
+func c16EmitGate(out *vfOut, s string) {
+	got := netutil.IsValidHostname(s) || netutil.IsValidIPString(s)
+	want := c16Wellformed(s)
+	c := vfCase{
+		Coq:        vfApp("CGate", vfBytes(s), vfBool(netutil.IsValidIPString(s)), vfBool(got)),
+		Nontrivial: s != "",
+		Classes:    []string{"gate-direct"},
+		MonitorOK:  got == want,
+		Desc:       map[string]any{"op": "IsValidHostname||IsValidIPString", "s": s, "result": got},
+	}
+	if got != want {
+		c.MonitorMsg = "the well-formedness gate of anyNameMatches disagrees with the host-name / IP grammar"
+		c.FindingKey = "C16-" + vfHash("gate", s)
+	}
+	out.Emit(c)
+}
+
+// generators for the certificate stream (ASCII only, no "xn--" labels: the
+// model of the gate covers those)
+
+var c16CertDomains = []string{"example.org", "dns.example.org", "example.com", "org", "a-b.example.org", "beta.example.org", "0.0.1", "3.4"}
+
+var c16CertLabels = []string{"alice", "evil", "my-", "x", "a", "dns", "www", "A", "Bob", "0", "1", "127", "a-b", "mid", "zeta", "alpha"}
+
+var c16BadLabels = []string{"a_b", "-a", "a-", "*", "", "a b", strings.Repeat("y", 64), "a*"}
+
+// c16CertPattern makes a certificate name.
+func c16CertPattern(r *vfRand) string {
+	d := vfPick(r, c16CertDomains)
+	switch r.Intn(16) {
+	case 0, 1, 2, 3, 4:
+		return "*." + d
+	case 5, 6, 7, 8:
+		return d
+	case 9, 10:
+		return vfPick(r, c16CertLabels) + "." + d
+	case 11:
+		return "*" + vfPick(r, c16CertLabels) + "." + d
+	case 12:
+		return vfPick(r, []string{"*", "*.", "", "*.*." + d, "." + d, d + "."})
+	case 13:
+		return c16FlipCase(r, d)
+	case 14:
+		return "*." + c16FlipCase(r, d)
+	default:
+		return "evil" + d
+	}
+}
+
+// c16CertHost makes a handshake server name in a named relation to one of the
+// names.
+func c16CertHost(r *vfRand, names []string) (host, class string) {
+	n := ""
+	if len(names) > 0 {
+		n = vfPick(r, names)
+	}
+	d := strings.TrimPrefix(n, "*.")
+	wild := d != n
+	l, l2 := vfPick(r, c16CertLabels), vfPick(r, c16CertLabels)
+	switch r.Intn(20) {
+	case 0, 1:
+		return n, "rel-equal-text"
+	case 2, 3, 4:
+		return l + "." + d, "rel-one-label"
+	case 5, 6:
+		return l + "." + l2 + "." + d, "rel-two-labels"
+	case 7:
+		if wild {
+			return d, "cert-bare-domain-vs-wild"
+		}
+		return d, "rel-equal-text"
+	case 8:
+		return "evil" + d, "cert-lookalike-nodot"
+	case 9:
+		return vfPick(r, []string{"my-", "evil-", "x-"}) + d, "cert-lookalike-hyphen"
+	case 10:
+		return l + "." + vfPick(r, []string{"evil", "my-", "x"}) + d, "cert-lookalike-sub"
+	case 11:
+		return vfPick(r, []string{d + ".evil.net", d + "x", l + "." + d + ".evil.net"}), "cert-lookalike-prefix"
+	case 12:
+		return "." + d, "cert-leading-dot"
+	case 13:
+		return c16FlipCase(r, l+"."+d), "rel-case"
+	case 14:
+		return c16FlipCase(r, d), "rel-case"
+	case 15:
+		return "", "cert-empty-sni"
+	case 16:
+		return vfPick(r, []string{"127.0.0.1", "1.2.3.4", "::1", "fe80::1%eth0", "1.2.3", "256.1.1.1", "01.2.3.4", "1.2.3.4.5", "::ffff:1.2.3.4", "1::2::3", "12345::", ":"}), "rel-ip"
+	case 17:
+		return vfPick(r, c16BadLabels) + "." + d, "cert-sni-invalid"
+	case 18:
+		return l + "." + d + ".", "cert-sni-invalid"
+	default:
+		return l + "." + vfPick(r, c16CertDomains), "rel-other"
+	}
+}
+
+func c16CertNameSet(r *vfRand) (names []string) {
+	n := 1 + r.Intn(5)
+	if r.Chance(1, 12) {
+		n = 0
+	}
+	for i := 0; i < n; i++ {
+		names = append(names, c16CertPattern(r))
+	}
+	return names
+}
+
+// c16CertPrelude: constructed, seed-independent representatives; among them
+// the inputs of the seeded change C16-E.
+func c16CertPrelude(out *vfOut) {
+	W := []string{"*.example.org"}
+	for _, p := range []struct {
+		sans   []string
+		cn     string
+		strict bool
+		sni    string
+		cl     string
+	}{
+		{W, "demo", true, "alice.example.org", "cert-wild-one-label"},
+		{W, "demo", true, "alice.dns.example.org", "cert-wild-two-labels"},
+		{W, "demo", true, "example.org", "cert-bare-domain-vs-wild"},
+		{W, "demo", true, "evilexample.org", "cert-lookalike-nodot"},
+		{W, "demo", true, "my-example.org", "cert-lookalike-hyphen"},
+		{W, "demo", true, "alice.evilexample.org", "cert-lookalike-sub"},
+		{W, "demo", true, "alice.my-example.org", "cert-lookalike-sub"},
+		{W, "demo", true, "example.org.evil.net", "cert-lookalike-prefix"},
+		{W, "demo", true, "alice.example.org.evil.net", "cert-lookalike-prefix"},
+		{W, "demo", true, ".example.org", "cert-leading-dot"},
+		{W, "demo", true, "", "cert-empty-sni"},
+		{W, "demo", true, "A.Example.Org", "cert-case"},
+		{W, "demo", true, "alice.EXAMPLE.org", "cert-case"},
+		{W, "demo", true, "Alice.example.org", "cert-wild-one-label"},
+		{W, "demo", true, "127.0.0.1", "cert-ip-sni"},
+		{W, "demo", true, "::1", "cert-ip-sni"},
+		{W, "demo", true, "*.example.org", "cert-sni-invalid"},
+		{W, "demo", true, "a_b.example.org", "cert-sni-invalid"},
+		{W, "demo", true, "alice.example.org.", "cert-sni-invalid"},
+		{W, "demo", true, "demo", "cert-reject"},
+		{W, "demo", false, "evilexample.org", "cert-strict-off"},
+		{W, "demo", false, "", "cert-strict-off"},
+		{[]string{"example.org"}, "demo", true, "example.org", "cert-exact"},
+		{[]string{"example.org"}, "demo", true, "www.example.org", "cert-reject"},
+		{[]string{"example.org"}, "demo", true, "Example.org", "cert-case"},
+		{[]string{"example.org"}, "demo", true, "evilexample.org", "cert-lookalike-nodot"},
+		{[]string{"www.example.org", "*.example.org", "example.org", "dns.example.com"}, "", true, "example.org", "cert-unsorted"},
+		{[]string{"www.example.org", "*.example.org", "example.org", "dns.example.com"}, "", true, "dns.example.com", "cert-unsorted"},
+		{[]string{"www.example.org", "*.example.org", "example.org", "dns.example.com"}, "", true, "x.dns.example.com", "cert-unsorted"},
+		{[]string{"www.example.org", "*.example.org", "example.org", "dns.example.com"}, "", true, "evilexample.org", "cert-lookalike-nodot"},
+		{[]string{"zeta.example.org", "alpha.example.org", "*.beta.example.org", "mid.example.org", "beta.example.org"}, "", true, "alpha.example.org", "cert-unsorted"},
+		{[]string{"zeta.example.org", "alpha.example.org", "*.beta.example.org", "mid.example.org", "beta.example.org"}, "", true, "zeta.example.org", "cert-unsorted"},
+		{[]string{"zeta.example.org", "alpha.example.org", "*.beta.example.org", "mid.example.org", "beta.example.org"}, "", true, "mid.example.org", "cert-unsorted"},
+		{[]string{"zeta.example.org", "alpha.example.org", "*.beta.example.org", "mid.example.org", "beta.example.org"}, "", true, "beta.example.org", "cert-unsorted"},
+		{[]string{"zeta.example.org", "alpha.example.org", "*.beta.example.org", "mid.example.org", "beta.example.org"}, "", true, "x.beta.example.org", "cert-unsorted"},
+		{[]string{"zeta.example.org", "alpha.example.org", "*.beta.example.org", "mid.example.org", "beta.example.org"}, "", true, "xbeta.example.org", "cert-lookalike-nodot"},
+		{[]string{"*.example.org", "evilexample.org"}, "", true, "evilexample.org", "cert-exact"},
+		{[]string{"*.example.org", "*.evilexample.org"}, "", true, "alice.evilexample.org", "cert-wild-one-label"},
+		{[]string{"*.example.org", "*.dns.example.org", "Example.ORG"}, "", true, "Example.ORG", "cert-exact"},
+		{[]string{"*.example.org", "*.dns.example.org", "Example.ORG"}, "", true, "example.org", "cert-case"},
+		{nil, "example.org", true, "example.org", "cert-no-names"},
+		{nil, "example.org", true, "a.example.org", "cert-no-names"},
+		{nil, "*.example.org", true, "a.example.org", "cert-no-names"},
+		{nil, "*.example.org", true, "evilexample.org", "cert-no-names"},
+		{nil, "", true, "", "cert-no-names"},
+		{nil, "", true, "example.org", "cert-no-names"},
+		{nil, "", false, "example.org", "cert-no-names"},
+		{[]string{"example.org"}, "other.net", true, "other.net", "cert-cn-ignored"},
+		{[]string{"*", "*x.example.org", "x*.example.org", "*."}, "", true, "x.example.org", "pat-not-wildcard"},
+		{[]string{"*", "*x.example.org", "x*.example.org", "*."}, "", true, "ax.example.org", "pat-not-wildcard"},
+		{[]string{"*", "*x.example.org", "x*.example.org", "*."}, "", true, "*", "pat-not-wildcard"},
+		{[]string{"*", "*x.example.org", "x*.example.org", "*."}, "", true, "org", "pat-not-wildcard"},
+		{[]string{"*", "*x.example.org", "x*.example.org", "*."}, "", true, "a.", "pat-not-wildcard"},
+		{[]string{"1.2.3.4", "*.0.0.1"}, "", true, "1.2.3.4", "cert-ip-sni"},
+		{[]string{"1.2.3.4", "*.0.0.1"}, "", true, "127.0.0.1", "cert-ip-sni"},
+		{[]string{"1.2.3.4", "*.0.0.1"}, "", true, "1.2.3.5", "cert-ip-sni"},
+	} {
+		c16EmitHello(out, p.sans, p.cn, p.strict, p.sni, []string{p.cl, "pre-cert"})
+	}
+	for _, p := range [][2]string{
+		{"evilexample.org", "*.example.org"}, {"alice.evilexample.org", "*.example.org"}, {"alice.my-example.org", "*.example.org"},
+		{"a.example.org", "*.example.org"}, {"a.b.example.org", "*.example.org"}, {".example.org", "*.example.org"},
+		{"example.org", "*.example.org"}, {"A.EXAMPLE.ORG", "*.example.org"}, {"", "*.example.org"}, {"org", "*.example.org"},
+		{"a.example.org", "*"}, {"a.", "*."}, {".", "*."}, {"", "*."}, {"ax.d", "*x.d"}, {"", ""}, {"a.example.org", ""},
+		{"a.example.org", "example.org"}, {"a.example.org", "a.example.org"}, {"a.example.org", "*.a.example.org"},
+	} {
+		c16EmitWild(out, p[0], p[1], []string{"pre-cert"})
+	}
+	for _, p := range []struct {
+		names []string
+		sni   string
+	}{
+		{[]string{"*.example.org"}, "evilexample.org"},
+		{[]string{"*.example.org"}, "alice.example.org"},
+		{[]string{"alpha.org", "zeta.org"}, "alpha.org"},
+		{[]string{"zeta.org", "alpha.org"}, "alpha.org"},
+		{[]string{"zeta.org", "alpha.org"}, "zeta.org"},
+		{[]string{"zeta.org", "mid.org", "alpha.org"}, "mid.org"},
+		{[]string{"zeta.org", "*.org", "alpha.org"}, "alpha.org"},
+		{nil, "example.org"},
+		{[]string{""}, ""},
+		{[]string{"*.example.org"}, ""},
+		{[]string{"*.example.org"}, ".example.org"},
+		{[]string{"*.example.org", "*.example.org"}, "a.b.example.org"},
+	} {
+		c16EmitAny(out, p.names, p.sni, []string{"pre-cert"})
+	}
+	for _, s := range []string{"", "example.org", "a.b", "a.1", "1.2.3.4", "1.2.3", "256.1.1.1", "01.2.3.4", "1.2.3.4.5", "::1", ":", "12345.a",
+		"abcde:", "a_b.org", ".org", "org.", "-a.org", "A.Org", strings.Repeat("a.", 126) + "b", strings.Repeat("a.", 127) + "b", "0", "0a", "a.0"} {
+		c16EmitGate(out, s)
+	}
+}
+
+func c16CertStream(out *vfOut, rnd *vfRand) {
+	rh := rnd.Fork(11)
+	nSets := out.Scale(60, 400)
+	perSet := out.Scale(25, 40)
+	for i := 0; i < nSets; i++ {
+		sans := c16CertNameSet(rh)
+		cn := ""
+		if r := rh.Intn(4); r == 0 {
+			cn = c16CertPattern(rh)
+		} else if r == 1 {
+			cn = "demo"
+		}
+		names := c16CertNames(sans, cn)
+		for j := 0; j < perSet; j++ {
+			host, cl := c16CertHost(rh, names)
+			c16EmitHello(out, sans, cn, !rh.Chance(1, 8), host, []string{cl})
+		}
+	}
+	ra := rnd.Fork(12)
+	n := out.Scale(1200, 8000)
+	for i := 0; i < n; i++ {
+		names := c16CertNameSet(ra)
+		if ra.Chance(2, 3) {
+			slices.Sort(names)
+		}
+		host, cl := c16CertHost(ra, names)
+		c16EmitAny(out, names, host, []string{cl})
+	}
+	rw := rnd.Fork(13)
+	n = out.Scale(1200, 8000)
+	for i := 0; i < n; i++ {
+		pat := c16CertPattern(rw)
+		host, cl := c16CertHost(rw, []string{pat})
+		c16EmitWild(out, host, pat, []string{cl})
+		if i%4 == 0 {
+			c16EmitGate(out, host)
+		}
+	}
+}
+
 func TestVerifC16(t *testing.T) {
 	out := vfOpen(t, "C16")
 	defer out.Close()
@@ -910,6 +1511,7 @@ func TestVerifC16(t *testing.T) {
 	} {
 		c16EmitHTTPName(out, p.tls, p.sni, p.hdr, []string{"pre-http-name"})
 	}
+	c16CertPrelude(out)
 
 	rnd := vfNewRand(out.Seed)
 	rc := rnd.Fork(1)
@@ -939,4 +1541,5 @@ func TestVerifC16(t *testing.T) {
 	for i := 0; i < n; i++ {
 		c16EmitAux(out, ra)
 	}
+	c16CertStream(out, rnd)
 }
